@@ -10,12 +10,13 @@ def kv (ws : List String) (key : String) : Option String :=
 def b01 (s : String) : Option Bool :=
   if s = "0" then some false else if s = "1" then some true else none
 
-def parseFaults (ws : List String) : Option (List Bool) :=
+def parseFaults (ws : List String) : Option (List Fault) :=
   match kv ws "faults" with
   | none => none
   | some f =>
     if f = "-" then some [] else
-    f.toList.mapM fun c => if c = '0' then some false else if c = '1' then some true else none
+    f.toList.mapM fun c =>
+      if c = '0' then some Fault.ok else if c = '1' then some Fault.fail else if c = '2' then some Fault.failAfter else none
 
 /-- `-` ↦ no request; `p` ↦ (p,p); `p-q` ↦ (p,q). -/
 def parseRange (s : String) : Option (Option (Nat × Nat)) :=
@@ -54,7 +55,15 @@ def parseOp (ws : List String) : Option Op :=
     | some i, some fo, some st, some v, some f => some (.upgrade i fo st v (((kv rest "ct").bind b01).getD false) f)
     | _, _, _, _, _ => none
   | ["refresh"] => some .refresh
-  | ["refresh-full"] => some .refreshFull
+  | "refresh-full" :: rest =>
+    -- `fail` and `faults` are optional (a bare `refresh-full` is the fault-free `antctl status`)
+    match (match kv rest "faults" with | none => some [] | some _ => parseFaults rest) with
+    | some f => some (.refreshFull (((kv rest "fail").bind b01).getD false) f)
+    | none => none
+  | "drestart" :: i :: rest =>
+    match i.toNat?, (kv rest "retain").bind b01, parseFaults rest with
+    | some i, some r, some f => some (.drestart i r f)
+    | _, _, _ => none
   | ["restart-outside", i] => i.toNat?.map .restartOutside
   | ["die-outside", i] => i.toNat?.map .kill
   | ["kill", i] => i.toNat?.map .kill
@@ -79,12 +88,12 @@ def insertBy {α : Type} (key : α → Nat) (x : α) : List α → List α
 def sortBy {α : Type} (key : α → Nat) (xs : List α) : List α := xs.foldl (fun acc x => insertBy key x acc) []
 
 def svcS (s : Svc) : String :=
-  s!" {s.number}/{s.number}/{s.number}:{statusS s.status}:pid={optS s.pid}:np={optS s.nodePort}:mp={optS s.metricsPort}:rp={s.rpcPort}:v={s.version}:cp={optS s.peers}"
+  s!" {s.number}/{s.number}/{s.number}:{statusS s.status}:pid={optS s.pid}:np={optS s.nodePort}:mp={optS s.metricsPort}:rp={s.rpcPort}:v={s.version}:cp={optS s.peers}:pe={optS s.peer}:la={optS s.lport}"
 
 /-- in-memory registry, registry file, simulated OS -/
 def dump (s : Sys) : String :=
   let w := s.w
-  let inst := (sortBy (fun e => e.1) w.os.installed).map fun e => s!"{e.1}:{optS e.2}"
+  let inst := (sortBy (fun e => e.1) w.os.installed).map fun e => s!"{e.1}:{optS e.2.1}"
   let procs := (sortBy (fun p => p.pid) w.os.procs).map fun p => s!"{p.pid}@{p.svc}:{p.port}"
   let dirs := (sortBy id w.os.dirs).map toString
   "R" ++ String.join (w.reg.map svcS) ++ " | F" ++ String.join (s.file.map svcS) ++
